@@ -246,7 +246,9 @@ func unproject(m interface{}) interface{} {
 		return cpsToString(mm["s"])
 	case "arr":
 		a, _ := mm["v"].([]interface{})
-		out := make([]interface{}, len(a))
+		// spare capacity, as arrays decoded by encoding/json and arrays grown by append have: whatever writes
+		// behind the end of a caller's array, or shifts its members in place, is then visible in the caller's value
+		out := make([]interface{}, len(a), len(a)+3)
 		for i := range a {
 			out[i] = unproject(a[i])
 		}
